@@ -884,6 +884,21 @@ class Normaliser:
                 return [assign(self._elem(fn, dst, self._ref(var, line), line, T), val)]
             self.note(fn, "%s at line %s read as the loop it stands for" % (callee, line))
             return [self._index_loop(fn, line, cnt, body)]
+        if k == "Call" and callee == "std::transform" and len(args) == 4:
+            # d[i] = op(s[i]) with op a closure / function whose body is `return E;`: E with the parameter replaced by the element
+            src, dst = self._pos(fn, args[0]), self._dest(fn, args[2])
+            cnt = self._count(fn, args[0], args[1], line, T) if src is not None and src[0] != "adj" else None
+            opf = self._value_function(fn, args[3])
+            if src is None or dst is None or cnt is None or opf is None:
+                return None
+
+            def body(var):
+                val = self._subst_param(opf, self._elem(fn, src, self._ref(var, line), line, T), fn)
+                if dst[0] == "push":
+                    return [self._push(fn, dst, val, line)]
+                return [assign(self._elem(fn, dst, self._ref(var, line), line, T), val)]
+            self.note(fn, "std::transform at line %s read as the loop it stands for (the unary operation `%s` substituted)" % (line, opf.name if opf.name != "operator()" else "lambda"))
+            return [self._index_loop(fn, line, cnt, body)]
         if k == "Call" and callee == "std::partial_sum" and len(args) == 3:
             # in place: P[i+1] += P[i] for i in [0, n-1)
             src, dst = self._pos(fn, args[0]), self._pos(fn, args[2])
@@ -930,6 +945,60 @@ class Normaliser:
             self.note(fn, "range insert at line %s read as the push_back loop it stands for" % line)
             return [self._index_loop(fn, line, cnt, lambda var: [self._push(fn, dst, self._elem(fn, src, self._ref(var, line), line, T), line)])]
         return None
+
+    def _closure_fn(self, fn, op_decl):
+        if not hasattr(self, "_bydecl"):
+            self._bydecl = {}
+            for lst in self.findex.by_full.values():
+                for f in lst:
+                    if f.d.get("decl") is not None:
+                        self._bydecl.setdefault((id(f.facts), f.d["decl"]), f)
+        return self._bydecl.get((id(fn.facts), op_decl))
+
+    def _value_function(self, fn, n):
+        """the function behind a unary operation argument (a lambda expression, possibly through a never re-assigned local) if its body is exactly `return E;`"""
+        n = strip(n)
+        for _ in range(4):
+            if n is None:
+                return None
+            if n.get("k") in ("Construct", "TempObj") and len(n.get("a", [])) == 1:
+                n = strip(n["a"][0])
+            elif n.get("k") == "Ref" and n.get("dk") == "local":
+                r = self._resolve(fn, n)
+                if r is n:
+                    return None
+                n = r
+            else:
+                break
+        if n is None or n.get("k") != "Lambda" or (n.get("captures") or []):
+            return None
+        f = self._closure_fn(fn, n.get("op_decl"))
+        if f is None or f.body is None or len(f.params) != 1:
+            return None
+        stmts = [x for x in f.body.get("s", []) if x.get("k") != "Decl" or x.get("vars")]
+        if len(stmts) != 1 or stmts[0].get("k") != "Return" or stmts[0].get("e") is None:
+            return None
+        return f
+
+    def _subst_param(self, f, arg, fn):
+        """clone of the returned expression of a `return E;` function with its single parameter replaced by arg"""
+        pd = f.params[0]["d"]
+        cross = f.facts is not fn.facts
+        e = self._clone(f.body["s"][-1]["e"] if f.body["s"][-1].get("k") == "Return" else [x for x in f.body["s"] if x.get("k") == "Return"][0]["e"],
+                        None, (lambda t: self._tid(fn, f.type(t))) if cross else None)
+
+        def rep(n):
+            if not isinstance(n, dict):
+                return n
+            if n.get("k") == "Ref" and n.get("d") == pd:
+                return self._clone(arg)
+            for key, val in list(n.items()):
+                if isinstance(val, dict) and "k" in val:
+                    n[key] = rep(val)
+                elif isinstance(val, list):
+                    n[key] = [rep(x) if isinstance(x, dict) and "k" in x else x for x in val]
+            return n
+        return rep(e)
 
     def _dest(self, fn, n):
         n0 = strip(n)
